@@ -16,6 +16,8 @@ int64: the translated code wraps every int64 `+`/`-` (`i64`); the model computes
 is `i64 (now - thr) = now - thr` for `validateJob` (no overflow in `now - OutdatedThreshold`; `now ≥ 0`, `0 ≤ thr` suffices)
 and the hypotheses of `C04_addNanos_is_satAdd` for `addNanos`.
 -/
+set_option linter.unusedSimpArgs false
+
 namespace TransSched
 open Generated.TransSched Sched Queue
 
@@ -199,6 +201,237 @@ theorem C04_accounted_trans (s : SState) (now thr : Int) (started : Bool) (hnov 
   rw [heq]
   exact C04_accounted s now thr h e (by rw [← heq]; exact hp) hs
 
+/-! ## Stage 3: the registry methods -/
+
+/-- a `*JobKey` argument (`hasKey = false`: nil) -/
+def keyOf (hasKey : Bool) (g n : String) : Option JobKey := if hasKey then some { name := n, group := g } else none
+
+theorem absErr_some_ne_none (e : Err) : absErr (some e) ≠ none := by
+  simp only [absErr]
+  repeat' split
+  all_goals simp
+
+theorem absErr_eq_none {e : Option Err} : absErr e = none ↔ e = none := by
+  cases e with
+  | none => simp [absErr]
+  | some x => simp [absErr_some_ne_none]
+
+theorem qerr_ne_none (e : QErr) : (qerr e = none) = False := by cases e <;> simp [qerr, newIllegalStateError, errorf2]
+theorem qerr_isNone (e : QErr) : (qerr e).isNone = false := by cases e <;> rfl
+
+theorem absErr_illegal (msg : String) : absErr (newIllegalArgumentError msg) = some .illegalArgument := by
+  simp [absErr, newIllegalArgumentError, errorf1, Err.is, ErrIllegalArgument]
+
+theorem trans_DeleteJob (s : SState) (env : Env) (hk : Bool) (g n : String) :
+    let r := DeleteJob modelQ modelT env (stOf s) (keyOf hk g n)
+    ssOf r.1 = (delete s hk g n).1 ∧ absErr r.2 = (delete s hk g n).2 ∧ r.1.trigs.2 = [] := by
+  cases hk with
+  | false => simp [DeleteJob, keyOf, delete, absErr_illegal, stOf, ssOf]
+  | true =>
+    simp only [DeleteJob, keyOf, delete, if_true, Option.isNone_some, Bool.false_eq_true, if_false, St.callQ, modelQ, stOf,
+      deref_some, Bool.not_true]
+    generalize hr : qremove s.q g n = rr
+    cases rr with
+    | ok v => obtain ⟨q', e⟩ := v; cases env.started <;> simp [St.emit, ssOf, absErr]
+    | error er => simp [qerr_isNone, ssOf, absErr_qerr]
+
+theorem trans_Clear (s : SState) (env : Env) :
+    let r := Clear modelQ modelT env (stOf s)
+    ssOf r.1 = clear s ∧ r.2 = none ∧ r.1.trigs.2 = [] := by
+  cases h : env.started <;> simp [Clear, St.callQ, modelQ, stOf, St.emit, ssOf, clear, h]
+
+theorem trans_GetScheduledJob (s : SState) (env : Env) (hk : Bool) (g n : String) :
+    let r := GetScheduledJob modelQ modelT env (stOf s) (keyOf hk g n)
+    ssOf r.1 = s ∧
+    (match getJob s hk g n with
+     | .ok e => r.2 = (some (ofEntry e), none)
+     | .error x => r.2.1 = none ∧ absErr r.2.2 = some x) := by
+  cases hk with
+  | false => simp [GetScheduledJob, keyOf, getJob, absErr_illegal, stOf, ssOf]
+  | true =>
+    simp only [GetScheduledJob, keyOf, getJob, if_true, Option.isNone_some, Bool.false_eq_true, if_false, St.callQ, modelQ, stOf,
+      deref_some, Bool.not_true]
+    generalize hr : qget s.q g n = rr
+    cases rr with
+    | ok e => simp [ssOf]
+    | error er => simp [ssOf, absErr_qerr]
+
+theorem foldl_append_singleton {α β : Type} (f : α → β) (l : List α) (init : List β) :
+    l.foldl (fun acc x => acc ++ [f x]) init = init ++ l.map f := by
+  induction l generalizing init with
+  | nil => simp
+  | cons a l ih => simp [ih]
+
+theorem trans_GetJobKeys (s : SState) (env : Env) (ms : List Matcher) :
+    let r := GetJobKeys modelQ modelT env (stOf s) ms
+    ssOf r.1 = s ∧ r.2 = ((jobKeys s ms).map (fun p => some { name := p.2, group := p.1 }), none) := by
+  simp only [GetJobKeys, St.callQ, modelQ, stOf, Option.isSome_none, Bool.false_eq_true, if_false, jobKeys]
+  rw [foldl_append_singleton (fun scheduled => (deref (scheduledJob.JobDetail (deref scheduled))).jobKey)]
+  simp [ssOf, scheduledJob.JobDetail, ofEntry, Function.comp_def]
+
+theorem absErr_suspended : absErr (newIllegalStateError (some ErrJobIsSuspended)) = some .jobIsSuspended := by decide
+theorem absErr_active : absErr (newIllegalStateError (some ErrJobIsActive)) = some .jobIsActive := by decide
+theorem absErr_expired : absErr (some ErrTriggerExpired) = some .triggerError := by decide
+
+theorem trans_PauseJob (s : SState) (env : Env) (hk : Bool) (g n : String) :
+    let r := PauseJob modelQ modelT env (stOf s) (keyOf hk g n)
+    ssOf r.1 = (pause s hk g n).1 ∧ absErr r.2 = (pause s hk g n).2 ∧ r.1.trigs.2 = [] := by
+  cases hk with
+  | false => simp [PauseJob, keyOf, pause, absErr_illegal, stOf, ssOf]
+  | true =>
+    simp only [PauseJob, keyOf, pause, if_true, Option.isNone_some, Bool.false_eq_true, if_false, St.callQ, modelQ, stOf,
+      deref_some, Bool.not_true]
+    generalize hr : qget s.q g n = rr
+    cases rr with
+    | error er => simp [qerr_isSome, ssOf, absErr_qerr]
+    | ok e =>
+      simp only [Option.isSome_none, Bool.false_eq_true, if_false, deref_some, scheduledJob.JobDetail, ofEntry]
+      try simp only [Option.isSome_none, Bool.false_eq_true, if_false, deref_some, scheduledJob.JobDetail, ofEntry]
+      by_cases hs : e.suspended = true
+      · simp [ssOf, absErr_suspended, hs]
+      · have hs' : e.suspended = false := by simpa using hs
+        simp only [hs', Bool.false_eq_true, if_false]
+        cases hrm : qremove s.q g n with
+        | error er => simp [hrm, qerr_isNone, ssOf, absErr_qerr]
+        | ok v =>
+          obtain ⟨q', j⟩ := v
+          cases hp : qpush q' { j with prio := 9223372036854775807, suspended := true } with
+          | ok q'' => cases hst : env.started <;> simp [hrm, hp, hst, St.emit, ssOf, absErr, toEntry, scheduledJob.JobDetail, scheduledJob.Trigger, maxInt64]
+          | error er => simp [hrm, hp, qerr_isNone, ssOf, absErr_qerr, toEntry, scheduledJob.JobDetail, scheduledJob.Trigger, maxInt64]
+
+theorem trans_ResumeJob (s : SState) (env : Env) (hk : Bool) (g n : String) :
+    let r := ResumeJob modelQ modelT env (stOf s) (keyOf hk g n)
+    let m := resume s env.now hk g n
+    ssOf r.1 = m.1 ∧ absErr r.2 = m.2.1 ∧ r.1.trigs.2 = m.2.2 := by
+  cases hk with
+  | false => simp [ResumeJob, keyOf, resume, absErr_illegal, stOf, ssOf]
+  | true =>
+    simp only [ResumeJob, keyOf, resume, if_true, Option.isNone_some, Bool.false_eq_true, if_false, St.callQ, St.callT, modelQ, modelT, stOf,
+      deref_some, Bool.not_true, SState.trig, SState.setTrig]
+    cases hr : qget s.q g n with
+    | error er => simp [qerr_isSome, ssOf, absErr_qerr]
+    | ok e =>
+      cases hs : e.suspended with
+      | false => simp [ssOf, absErr_active, hs, scheduledJob.JobDetail, ofEntry]
+      | true =>
+        cases hf : ((List.lookup e.tag s.trigs).getD (Trig.script [])).fire env.now with
+        | mk ro t' =>
+          cases ro with
+          | none => simp [hs, hf, scheduledJob.JobDetail, scheduledJob.Trigger, ofEntry, ssOf, absErr_expired]
+          | some p =>
+            cases hrm : qremove s.q g n with
+            | error er => simp [hs, hf, hrm, scheduledJob.JobDetail, scheduledJob.Trigger, ofEntry, ssOf, qerr_isNone, absErr_qerr]
+            | ok v =>
+              obtain ⟨q', j⟩ := v
+              cases hp : qpush q' { j with prio := p, suspended := false } with
+              | ok q'' =>
+                cases hst : env.started <;>
+                simp [hs, hf, hrm, hp, hst, St.emit, scheduledJob.JobDetail, scheduledJob.Trigger, ofEntry, toEntry, ssOf, absErr]
+              | error er =>
+                simp [hs, hf, hrm, hp, scheduledJob.JobDetail, scheduledJob.Trigger, ofEntry, toEntry, ssOf, qerr_isNone, absErr_qerr]
+
+/-- the `*JobDetail` argument of `ScheduleJob` described by the model's `SchedArgs` -/
+def detailOf (a : SchedArgs) : Option JobDetail :=
+  if a.hasDetail then
+    some { job := none, jobKey := if a.hasKey then some { name := a.name, group := a.group } else none,
+           opts := some { Suspended := a.suspended, Replace := a.replace } }
+  else none
+
+/-- the `Trigger` argument: the identity `a.tag` of the trigger object (nil if there is none) -/
+def trigRefOf (a : SchedArgs) : Option TRef := a.trig.map (fun _ => a.tag)
+
+/-- the trigger object handed to `ScheduleJob` exists, under its identity `a.tag`, before the call -/
+def withTrig (s : SState) (a : SchedArgs) : SState :=
+  match a.trig with
+  | some t => s.setTrig a.tag t
+  | none => s
+
+theorem filter_setTrig (l : List (Nat × Trig)) (tag : Nat) (t : Trig) :
+    List.filter (fun p => p.1 != tag) ((tag, t) :: List.filter (fun p => p.1 != tag) l) = List.filter (fun p => p.1 != tag) l := by
+  simp [List.filter_cons, List.filter_filter]
+
+theorem trans_ScheduleJob (s : SState) (env : Env) (a : SchedArgs) :
+    let r := ScheduleJob modelQ modelT env (stOf (withTrig s a)) (detailOf a) (trigRefOf a)
+    let m := schedule s env.now a
+    r.1.queue.1 = m.1.q ∧ absErr r.2 = m.2.1 ∧ r.1.trigs.2 = m.2.2 ∧ (m.2.1 = none → ssOf r.1 = m.1) := by
+  obtain ⟨hd, hkey, grp, nm, susp, repl, tag, trig⟩ := a
+  cases hd with
+  | false => cases trig <;> simp [ScheduleJob, detailOf, schedule, absErr_illegal, stOf, withTrig, SState.setTrig]
+  | true =>
+    cases hkey with
+    | false => cases trig <;> simp [ScheduleJob, detailOf, schedule, absErr_illegal, stOf, withTrig, SState.setTrig]
+    | true =>
+      by_cases hn : nm = ""
+      · cases trig <;> simp [ScheduleJob, detailOf, schedule, absErr_illegal, stOf, withTrig, hn, SState.setTrig]
+      · cases trig with
+        | none => simp [ScheduleJob, detailOf, trigRefOf, schedule, absErr_illegal, stOf, withTrig, hn]
+        | some t =>
+          cases susp with
+          | true =>
+            cases hp : qpush s.q { group := grp, name := nm, prio := maxInt64, suspended := true, replace := repl, tag := tag } with
+            | ok q' =>
+              cases hst : env.started <;>
+              simp [ScheduleJob, detailOf, trigRefOf, schedule, stOf, withTrig, hn, St.callQ, St.emit, modelQ, toEntry, hp, hst, ssOf, absErr, SState.setTrig, maxInt64] <;>
+              simp [maxInt64] at hp <;> simp [hp, ssOf, absErr]
+            | error er =>
+              simp [ScheduleJob, detailOf, trigRefOf, schedule, stOf, withTrig, hn, St.callQ, St.emit, modelQ, toEntry, hp, ssOf, absErr_qerr, qerr_isNone, qerr_ne_none, SState.setTrig, maxInt64] <;>
+              simp [maxInt64] at hp <;> simp [hp, ssOf, absErr_qerr, qerr_isNone, qerr_ne_none]
+          | false =>
+            cases hf : t.fire env.now with
+            | mk ro t' =>
+              cases ro with
+              | none =>
+                simp [ScheduleJob, detailOf, trigRefOf, schedule, stOf, withTrig, hn, St.callQ, St.callT, St.emit, modelQ, modelT, toEntry, hf, ssOf, absErr_expired, SState.setTrig]
+              | some p =>
+                cases hp : qpush s.q { group := grp, name := nm, prio := p, suspended := false, replace := repl, tag := tag } with
+                | ok q' =>
+                  cases hst : env.started <;>
+                  simp [ScheduleJob, detailOf, trigRefOf, schedule, stOf, withTrig, hn, St.callQ, St.callT, St.emit, modelQ, modelT, toEntry, hf, hp, hst, ssOf, absErr, SState.setTrig, List.filter_filter]
+                | error er =>
+                  simp [ScheduleJob, detailOf, trigRefOf, schedule, stOf, withTrig, hn, St.callQ, St.callT, St.emit, modelQ, modelT, toEntry, hf, hp, ssOf, absErr_qerr, qerr_isNone, qerr_ne_none, SState.setTrig]
+
+/-! ## Transfer of C09 (a call that returns an error leaves the registry unchanged) to the translated code -/
+
+theorem C09_delete_error_unchanged_trans (s : SState) (env : Env) (hk : Bool) (g n : String)
+    (herr : (DeleteJob modelQ modelT env (stOf s) (keyOf hk g n)).2 ≠ none) :
+    (DeleteJob modelQ modelT env (stOf s) (keyOf hk g n)).1.queue.1 = s.q := by
+  obtain ⟨h1, h2, _⟩ := trans_DeleteJob s env hk g n
+  have hm : (delete s hk g n).2 ≠ none := by rw [← h2]; exact fun h => herr (absErr_eq_none.mp h)
+  have := C09_delete_error_unchanged s hk g n hm
+  rw [← h1] at this; exact this
+
+theorem C09_pause_error_unchanged_trans (s : SState) (env : Env) (hk : Bool) (g n : String) (h : Inv s.q)
+    (herr : (PauseJob modelQ modelT env (stOf s) (keyOf hk g n)).2 ≠ none) :
+    (PauseJob modelQ modelT env (stOf s) (keyOf hk g n)).1.queue.1 = s.q := by
+  obtain ⟨h1, h2, _⟩ := trans_PauseJob s env hk g n
+  have hm : (pause s hk g n).2 ≠ none := by rw [← h2]; exact fun h => herr (absErr_eq_none.mp h)
+  have := C09_pause_error_unchanged s hk g n h hm
+  rw [← h1] at this; exact this
+
+theorem C09_resume_error_unchanged_trans (s : SState) (env : Env) (hk : Bool) (g n : String) (h : Inv s.q)
+    (herr : (ResumeJob modelQ modelT env (stOf s) (keyOf hk g n)).2 ≠ none) :
+    (ResumeJob modelQ modelT env (stOf s) (keyOf hk g n)).1.queue.1 = s.q := by
+  obtain ⟨h1, h2, _⟩ := trans_ResumeJob s env hk g n
+  have hm : (resume s env.now hk g n).2.1 ≠ none := by rw [← h2]; exact fun h => herr (absErr_eq_none.mp h)
+  have := C09_resume_error_unchanged s env.now hk g n h hm
+  rw [← h1] at this; exact this
+
+theorem C09_schedule_error_unchanged_trans (s : SState) (env : Env) (a : SchedArgs)
+    (herr : (ScheduleJob modelQ modelT env (stOf (withTrig s a)) (detailOf a) (trigRefOf a)).2 ≠ none) :
+    (ScheduleJob modelQ modelT env (stOf (withTrig s a)) (detailOf a) (trigRefOf a)).1.queue.1 = s.q := by
+  obtain ⟨h1, h2, _, _⟩ := trans_ScheduleJob s env a
+  have hm : (schedule s env.now a).2.1 ≠ none := by rw [← h2]; exact fun h => herr (absErr_eq_none.mp h)
+  rw [h1]; exact C09_schedule_error_unchanged s env.now a hm
+
+/-- each sentinel: the translated call fails with an error that `errors.Is` the documented sentinel exactly when the
+model reports that error (read through `absErr`); e.g. for `DeleteJob` -/
+theorem C09_delete_error_iff_trans (s : SState) (env : Env) (hk : Bool) (g n : String) (h : Inv s.q) :
+    (absErr (DeleteJob modelQ modelT env (stOf s) (keyOf hk g n)).2 = some .illegalArgument ↔ hk = false) ∧
+    (absErr (DeleteJob modelQ modelT env (stOf s) (keyOf hk g n)).2 = some .jobNotFound ↔ hk = true ∧ ¬ hasKey s.q g n) ∧
+    (absErr (DeleteJob modelQ modelT env (stOf s) (keyOf hk g n)).2 = none ↔ hk = true ∧ hasKey s.q g n) := by
+  rw [(trans_DeleteJob s env hk g n).2.1]
+  exact C09_delete_error_iff s hk g n h
+
 /-! ## Non-vacuity -/
 
 def exA : SchedArgs := { group := "g", name := "a", tag := 1, trig := some (.simple 10) }
@@ -230,5 +463,19 @@ example : Inv exS.q := schedule_inv _ _ _ (schedule_inv _ _ _ inv_empty)
 example : addNanos 100 maxInt64 = maxInt64 ∧ addNanos 5 10 = 15 ∧ addNanos (maxInt64 - 3) 4 = maxInt64 := by decide
 example : I64 100 ∧ I64 maxInt64 ∧ (0 < maxInt64 ∨ -maxInt64 - 1 ≤ 100 + maxInt64) := by unfold I64; decide
 example : RunOnceTrigger.NextFireTime { Delay := 5, Expired := true } 7 = ({ Delay := 5, Expired := true }, (0, some ErrTriggerExpired)) := by decide
+
+-- registry: a failing and a succeeding call of each kind
+example : absErr (DeleteJob modelQ modelT (envOf 3 true 5) (stOf exS) (keyOf true "g" "zz")).2 = some .jobNotFound ∧
+    (DeleteJob modelQ modelT (envOf 3 true 5) (stOf exS) (keyOf true "g" "a")).2 = none ∧
+    (DeleteJob modelQ modelT (envOf 3 true 5) (stOf exS) (keyOf true "g" "a")).1.out =
+      [.log "Debug" "Successfully deleted job", .reset] := by decide +kernel
+example : (PauseJob modelQ modelT (envOf 3 false 5) (stOf exS) (keyOf true "g" "a")).2 = none ∧
+    absErr (PauseJob modelQ modelT (envOf 3 false 5)
+      (PauseJob modelQ modelT (envOf 3 false 5) (stOf exS) (keyOf true "g" "a")).1 (keyOf true "g" "a")).2 = some .jobIsSuspended := by
+  decide +kernel
+example : absErr (ResumeJob modelQ modelT (envOf 3 false 5) (stOf exS) (keyOf true "g" "a")).2 = some .jobIsActive := by decide +kernel
+example : absErr (ScheduleJob modelQ modelT (envOf 3 false 5) (stOf (withTrig exS exA)) (detailOf exA) (trigRefOf exA)).2 =
+    some .jobAlreadyExists := by decide +kernel
+example : (GetJobKeys modelQ modelT (envOf 3 false 5) (stOf exS) []).2.1.length = 2 := by decide +kernel
 
 end TransSched
